@@ -49,7 +49,7 @@ func runLog(rec *mon.Recorder, c int) {
 	if metric == 3 && dim == 1 {
 		dim = 2
 	}
-	g := &smx.Gen{Rng: rng, Dim: dim, Universe: 4 + rng.Intn(9), Metric: metric, LongMeta: c%8 == 3}
+	g := &smx.Gen{Rng: rng, Dim: dim, Universe: 4 + rng.Intn(9), Metric: metric, LongMeta: c%8 == 3, ZeroId: c%4 == 2}
 	sm := storage.VerifNewPartitionSM(uint32(dim), smx.SpaceOf(metric))
 	model := smx.NewModel()
 	var descs []string
@@ -152,7 +152,7 @@ func runLog(rec *mon.Recorder, c int) {
 		}
 		// Get / Len / byte counters
 		for j := 0; j < g.Universe; j++ {
-			id := hx.Id(j)
+			id := g.IdOf(j)
 			v, gerr := idx.Get(id)
 			it, ok := model.Items[id]
 			if ok != (gerr == nil) || (!ok && gerr != index.ItemNotFoundError) || (ok && !hx.VecEqual(v, it.Vec)) {
